@@ -10,6 +10,59 @@ Local Open Scope N_scope.
 (* position restriction of a type: impl PositionRestricted *)
 Inductive posr := PRConst (n : N) | PRField (name : string).
 
+(* ---- the group writer: what an entry of a group carries, and the order in which a group is written.
+   [P] is what is written for the entry: the text in the writer below, the tokens in Gram/TokWriter.v ---- *)
+Section Group.
+  Context {P : Type}.
+  Inductive ginfo :=
+  | GTag (tag : bytes) (incfile : option nat) (uid line so eo : N) (is_block : bool) (text : P) (pos : option N)
+  | GComment (text : bytes) (is_included : bool) (uid line so : N).
+
+  Definition g_uid (g : ginfo) : N := match g with GTag _ _ u _ _ _ _ _ _ => u | GComment _ _ u _ _ => u end.
+  Definition g_line (g : ginfo) : N := match g with GTag _ _ _ l _ _ _ _ _ => l | GComment _ _ _ l _ => l end.
+  Definition g_tag (g : ginfo) : bytes := match g with GTag t _ _ _ _ _ _ _ _ => t | GComment _ _ _ _ _ => [] end.
+  Definition g_pos (g : ginfo) : option N := match g with GTag _ _ _ _ _ _ _ _ p => p | GComment _ _ _ _ _ => None end.
+
+  Definition sort_function (a b : ginfo) : comparison :=
+    if (g_uid a =? 0) && negb (g_uid b =? 0) then Gt
+    else if (g_uid b =? 0) && negb (g_uid a =? 0) then Lt
+    else if g_uid a =? g_uid b then
+      (if g_line a =? g_line b
+       then str_cmp (string_of_list_ascii (g_tag a)) (string_of_list_ascii (g_tag b))
+       else N.compare (g_line a) (g_line b))
+    else N.compare (g_uid a) (g_uid b).
+  Definition sort_leb (a b : ginfo) : bool := match sort_function a b with Gt => false | _ => true end.
+
+  Definition pos_leb (a b : ginfo) : bool :=
+    match g_pos a, g_pos b with
+    | Some x, Some y => x <=? y
+    | None, _ => true
+    | Some _, None => false
+    end.
+
+  Fixpoint replace_restricted (group : list ginfo) (sorted : list ginfo) : list ginfo :=
+    match group with
+    | [] => []
+    | g :: r =>
+        match g_pos g with
+        | Some _ => match sorted with
+                    | s :: sr => s :: replace_restricted r sr
+                    | [] => g :: replace_restricted r []
+                    end
+        | None => g :: replace_restricted r sorted
+        end
+    end.
+
+  Definition apply_position_restrictions (group : list ginfo) : list ginfo :=
+    let restricted := filter (fun g => match g_pos g with Some _ => true | None => false end) group in
+    if Nat.ltb 1 (length restricted) then replace_restricted group (ssort pos_leb restricted)
+    else group.
+
+  (* the order in which add_group writes the entries *)
+  Definition group_order (group : list ginfo) : list ginfo := apply_position_restrictions (ssort sort_leb group).
+End Group.
+Arguments ginfo : clear implicits.
+
 Section W.
   Variable S : spec.
   Variable posrs : list (string * posr).
@@ -90,56 +143,11 @@ Section W.
 
   Definition quoted (s : bytes) : bytes := dq :: escape s ++ [dq].
 
-  (* ---- the group writer ---- *)
-  Inductive ginfo :=
-  | GTag (tag : bytes) (incfile : option nat) (uid line so eo : N) (is_block : bool) (text : bytes) (pos : option N)
-  | GComment (text : bytes) (is_included : bool) (uid line so : N).
-
-  Definition g_uid (g : ginfo) : N := match g with GTag _ _ u _ _ _ _ _ _ => u | GComment _ _ u _ _ => u end.
-  Definition g_line (g : ginfo) : N := match g with GTag _ _ _ l _ _ _ _ _ => l | GComment _ _ _ l _ => l end.
-  Definition g_tag (g : ginfo) : bytes := match g with GTag t _ _ _ _ _ _ _ _ => t | GComment _ _ _ _ _ => [] end.
-  Definition g_pos (g : ginfo) : option N := match g with GTag _ _ _ _ _ _ _ _ p => p | GComment _ _ _ _ _ => None end.
-
-  Definition sort_function (a b : ginfo) : comparison :=
-    if (g_uid a =? 0) && negb (g_uid b =? 0) then Gt
-    else if (g_uid b =? 0) && negb (g_uid a =? 0) then Lt
-    else if g_uid a =? g_uid b then
-      (if g_line a =? g_line b
-       then str_cmp (string_of_list_ascii (g_tag a)) (string_of_list_ascii (g_tag b))
-       else N.compare (g_line a) (g_line b))
-    else N.compare (g_uid a) (g_uid b).
-  Definition sort_leb (a b : ginfo) : bool := match sort_function a b with Gt => false | _ => true end.
-
-  Definition pos_leb (a b : ginfo) : bool :=
-    match g_pos a, g_pos b with
-    | Some x, Some y => x <=? y
-    | None, _ => true
-    | Some _, None => false
-    end.
-
-  Fixpoint replace_restricted (group : list ginfo) (sorted : list ginfo) : list ginfo :=
-    match group with
-    | [] => []
-    | g :: r =>
-        match g_pos g with
-        | Some _ => match sorted with
-                    | s :: sr => s :: replace_restricted r sr
-                    | [] => g :: replace_restricted r []
-                    end
-        | None => g :: replace_restricted r sorted
-        end
-    end.
-
-  Definition apply_position_restrictions (group : list ginfo) : list ginfo :=
-    let restricted := filter (fun g => match g_pos g with Some _ => true | None => false end) group in
-    if Nat.ltb 1 (length restricted) then replace_restricted group (ssort pos_leb restricted)
-    else group.
-
   (* included_files: HashSet<String> keyed by the text of the directive *)
   Fixpoint mem_name (x : bytes) (l : list bytes) : bool :=
     match l with [] => false | y :: r => bytes_eqb x y || mem_name x r end.
 
-  Fixpoint emit_group (indent : nat) (group : list ginfo) (included : list bytes) (o : out) : out :=
+  Fixpoint emit_group (indent : nat) (group : list (ginfo bytes)) (included : list bytes) (o : out) : out :=
     match group with
     | [] => o
     | GTag tag incfile _ _ so eo is_block text _ :: r =>
@@ -162,8 +170,8 @@ Section W.
                   (push text (if so =? 0 then o else (rev_append (repeat_bytes [lf] (N.to_nat so)) (fst o), false))))
     end.
 
-  Definition add_group (indent : nat) (group : list ginfo) (o : out) : out :=
-    emit_group indent (apply_position_restrictions (ssort sort_leb group)) [] o.
+  Definition add_group (indent : nat) (group : list (ginfo bytes)) (o : out) : out :=
+    emit_group indent (group_order group) [] o.
 
   (* ---- GenericIfData::write ---- *)
   Definition gint_ity (variant : string) : ity :=
@@ -258,7 +266,7 @@ Section W.
     | _ => mkLay 0 0 0 0 None
     end.
 
-  Definition comment_info (c : comment) : ginfo :=
+  Definition comment_info (c : comment) : ginfo bytes :=
     GComment (cm_text c) (cm_included c) (cm_uid c) (cm_line c) (cm_so c).
 
   (* [write_into fuel v indent o]: the writer [o] of the enclosing element continues with the items of [v]
